@@ -29,7 +29,8 @@ REQUIRED = ['mon.cached_connects', 'mon.cache_hits', 'mon.truncation_offsets', '
             'mon.garbled_files', 'mon.crc_collision_cases', 'mon.ro_dir_audited', 'mon.audit_events_seen',
             'mon.files_vanished_before_connect', 'mon.files_with_a_field_missing',
             'mon.crc_collision_with_one_empty_table', 'mon.store_load_round_trips',
-            'mon.interrupted_download_then_other_firmware_histories']
+            'mon.interrupted_download_then_other_firmware_histories',
+            'mon.late_item_answers_of_the_interrupted_session_during_the_final_download']
 DESC_TIMEOUT = 1500
 EXHAUSTIVE = {'quick': False, 'thorough': False}
 EXHAUSTIVE_NOTE = 'truncation offsets are enumerated completely for every written cache file (fetch level); connections on a sample'
@@ -78,7 +79,7 @@ def cases(tier, seed):
                     'proto': rnd.choice((10, 10, 3)), 'config': CONFIGS[i % len(CONFIGS)], 'crc': crc_mode,
                     'connect_samples': 6 if tier == 'quick' else 40, 'latin': i % 4 == 0})
     out.append({'seed': seed * 31 + 7, 'part': 'storeload'})
-    out += [{'seed': seed * 1009 + 400 + i, 'part': 'history'} for i in range(10 if tier == 'quick' else 80)]
+    out += [{'seed': seed * 1009 + 400 + i, 'part': 'history'} for i in range(16 if tier == 'quick' else 120)]
     # an empty table whose checksum collides with the (non-empty) table of the other kind
     for j, (nl, npar, cfg) in enumerate(((0, 5, 'rw'), (4, 0, 'rw'), (0, 3, 'ro+rw'), (6, 0, 'none'), (0, 0, 'rw'), (0, 1, 'ro'))):
         out.append({'seed': seed * 1000003 + 5000 + j, 'nlog': nl, 'nparam': npar, 'proto': 10 if j % 2 == 0 else 3, 'config': cfg,
@@ -224,6 +225,16 @@ def run_history(desc, ctx):
         cf2.connected.add_callback(lambda u: d2.set())
         cf2.connection_failed.add_callback(lambda u, m: d2.set())
         cf2.open_link('sim://c11x')
+        if desc['seed'] % 3 != 0 and cf2.link is not None:
+            # answers to item requests of the session that was cut short are still on their way (device queue, radio):
+            # they carry X's own entries, any index, and arrive anywhere during this download
+            import struct as _st
+            total = 12 + len(devx.log_toc) + len(devx.params)
+            for _ in range(rnd.randint(1, 5)):
+                port, count, item = rnd.choice(((5, len(devx.log_toc), devx.log_item), (2, len(devx.params), devx.param_item)))
+                idx = rnd.randrange(count)
+                cf2.link.inject(simcf.hdr(port, 0), bytes([2]) + _st.pack('<H', idx) + item(idx), rnd.uniform(0.0, 0.0022 * total))
+                ob['stale'] = ob.get('stale', 0) + 1
         d2.wait(300.0)
         s.sleep(0.3)
         ob['x_log'], ob['x_param'] = oracles.snapshot_toc(cf2.log.toc), oracles.snapshot_toc(cf2.param.toc)
@@ -232,6 +243,7 @@ def run_history(desc, ctx):
         _, abort, sch = harness.sched_case(fn, seed=desc['seed'], policy=('rtb', 'random')[desc['seed'] % 2], horizon=2000.0)
         ctx.evals()
         ctx.count('mon.interrupted_download_then_other_firmware_histories')
+        ctx.count('mon.late_item_answers_of_the_interrupted_session_during_the_final_download', ob.get('stale', 0))
         ctx.nontrivial(('history', desc['seed']))
         rp = dict(desc)
         if abort is not None:
